@@ -112,6 +112,10 @@ PROPS = {
             'fallback': [{'when': 'effects::analyze', 'group': KANI_ASM_ANALYZE}],
             'explanation': 'analyze(ops) returns exactly the union of the effect flags of the ops (all slices); bytes_contains_any is outside Verus (by_ref/take/for_each) and checked bounded'},
     'C17': {'level': 'other', 'verus_units': ['hash_core'],
+            'xrun': [{'suite': 'hash', 'claim': 'contract / solution-set / predicate / program / solution addresses equal SHA-256 of the documented pre-hash encodings '
+                      '(sorted member addresses as a multiset ++ salt; documented predicate layout; program bytes), all helpers agree, encoded size == length',
+                      'bound': 'address sequences of length <= 3 (thorough 4) over 6 boundary addresses x 3 salts; predicate shapes <= 9 nodes x <= 34 edges (thorough 20 x 70); '
+                               'contracts / sets of <= 3 members drawn with repetition from 3; program lengths around the SHA block size'}],
             'explanation': 'partial: solution-set address: the address slice is sorted in place (a permutation) before hashing and sorted arrangements of a multiset are unique, '
                            'hence order independence (Verus lemmas); from_solution_addrs / from_predicate_addrs / Program and Solution addresses verified against spec functions over an '
                            'uninterpreted SHA-256 / postcard; predicate_encoded_size equals the documented size',
